@@ -3,6 +3,6 @@ CHECKS = [
           technique="property-based testing (rapid): generated event batches through a live Router with recording sinks; partition oracle (each uniquely tagged event in exactly the one sink its class prescribes) plus attribute preservation on forwarded copies",
           quick=dict(checks=1500, budget_s=50),
           thorough=dict(checks=5000, shards=16, budget_s=420),
-          level_text="Generated requests on /1/events and /1/batch (JSON/msgpack, gzip/zstd, both listeners, stressed or not, own/foreign/absent/empty trace ids, probes) against a fresh Router per case with recording transmissions, collector and stub sharder; exactly-one-route partition and forwarded-attribute equality per event. Exploration: does not prove absence.",
-          level_note="Collector, sharder and transmissions are recording doubles (routing decision only); OTLP endpoints are not driven here; probe-to-owner under stress is tolerated (C16); lateness makes the case inconclusive."),
+          level_text="Generated requests on /1/events and /1/batch (JSON/msgpack, gzip/zstd, both listeners, stressed or not, own/foreign/absent/empty trace ids, probes, dataset names with '+', encoded and reserved characters) against a fresh Router per case with recording transmissions, collector and stub sharder; exactly-one-route partition and attribute equality (key, dataset, rate, timestamp, fields) at every sink, for a third of the cases also across a real DirectTransmission hop into a second node's peer listener. Exploration: does not prove absence.",
+          level_note="Collector and sharder are recording doubles; transmissions are recording doubles except the peer hop cases (real DirectTransmission -> second Router); OTLP endpoints are not driven here; probe-to-owner under stress is tolerated (C16); lateness makes the case inconclusive."),
 ]
